@@ -22,7 +22,7 @@ def gen_events(ctx, res):
 
 
 SCHEMA_OUTS = ["./gen/schema.d.ts", "./schema.generated.d.ts", "./out/deep/graphql.schema.d.ts", "./types/api.v2.types.d.mts", "./ops/s.d.ts",
-               "./out/x.y/schema.d.cts", "./gen/plain.ts", "./.generated/schema.d.ts", "./ops/.hidden/s.d.ts"]
+               "./out/x.y/schema.d.cts", "./gen/plain.ts", "./.generated/schema.d.ts", "./ops/.hidden/s.d.ts", "./sch/t.d.ts", "./op/s.d.ts"]
 
 
 def consumers(ctx):
